@@ -78,7 +78,9 @@ def make_case(seed, index, tier):
             if roll < 0.45:
                 item_no += 1
                 item = item_no if kind != 'prioritystore' else [rng.randint(0, 3), item_no]
-                if kind != 'prioritystore' and item_no > 1 and rng.random() < 0.25:
+                if kind == 'store' and rng.random() < 0.15:
+                    item = 'NONE'       # the item None (a valid item), written as a marker
+                elif kind != 'prioritystore' and item_no > 1 and rng.random() < 0.25:
                     # a twin: equal to (==) an earlier item, yet a different object that
                     # filters can tell apart - the store must hand out *the* matching item
                     item = float(rng.randint(1, item_no - 1))
@@ -452,7 +454,7 @@ def run_case(case):
                 elif kind == 'prioritystore':
                     request = res.put(PriorityItem(op['item'][0], op['item'][1]))
                 else:
-                    request = res.put(op['item'])
+                    request = res.put(None if op['item'] == 'NONE' else op['item'])
             elif what == 'get':
                 if kind == 'container':
                     request = res.get(op['amount'])
@@ -522,6 +524,8 @@ def run_case(case):
                 value = request.value
                 if isinstance(value, PriorityItem):
                     value = (value.priority, value.item)
+                if value is None and kind == 'store' and case['ops'][number]['op'] == 'get':
+                    value = 'NONE'      # the get received the item None
                 snap['granted'][number] = ident(value)
         snap['put_queue'] = [index_of.get(id(req)) for req in res.put_queue]
         snap['get_queue'] = [index_of.get(id(req)) for req in res.get_queue]
@@ -531,7 +535,8 @@ def run_case(case):
         elif kind in ('store', 'prioritystore', 'filterstore'):
             items = res.items
             snap['items'] = [(item.priority, item.item) if isinstance(item, PriorityItem)
-                             else ident(item) for item in items]
+                             else ident('NONE' if item is None and kind == 'store' else item)
+                             for item in items]
         else:
             snap['users'] = sorted(index_of.get(id(req)) for req in res.users)
             holder['bounds'].append(len(res.users))
